@@ -150,6 +150,8 @@ pub fn drive(corpus: &str, seed: u64, out: &str, thorough: bool) {
     "let é = foo(🦀x);\r\nfoo(é); foo(é, é);\r\n".replace("🦀x", "\"🦀\""),
     long.clone() + "\n" + &format!("bar({}foo(\"🦀\"));", " ".repeat(600)),
     "// nothing here\n".into(),
+    // matches far apart: several separate groups of lines in the report, each with its own context lines
+    "// l1\n// l2 é\nfoo(1);\n// l4\n// l5\n// l6\n// l7\n// l8 🦀\n// l9\nfoo(2);\n// l11\n// l12\n// l13\n// l14\nbar(foo(3),\n  foo(4));\n// l17".into(),
   ];
   let mut cases = vec![];
   let styles = ["pretty", "stream", "compact", "plain"];
@@ -162,7 +164,7 @@ pub fn drive(corpus: &str, seed: u64, out: &str, thorough: bool) {
           continue; // the path:line:text report is the `sg run` report
         }
         // how many of the files match: choose file subsets
-        for subset in [vec![0usize], vec![5], vec![0, 5, 2], vec![1, 3, 4, 0], vec![5, 5]] {
+        for subset in [vec![0usize], vec![5], vec![0, 5, 2], vec![1, 3, 4, 0], vec![5, 5], vec![6], vec![6, 2]] {
           k += 1;
           if !thorough && k % 3 != (seed % 3) as usize {
             continue;
@@ -228,6 +230,15 @@ pub fn drive(corpus: &str, seed: u64, out: &str, thorough: bool) {
       let (style, ctx) = [("stream", (0, 0, false)), ("compact", (1, 1, true)), ("pretty", (0, 1, false))][j % 3];
       cases.push(Case { id: format!("shape-{lang}-{k}"), files: vec![(format!("src/t.{ext}"), text.to_string())], lang, pattern: String::new(), rewrite: None, ctx, style, scan: true, kind: Some(k.to_string()) });
     }
+  }
+  // documents inside documents: JavaScript / CSS embedded in an html file (offsets are those of the file, not of the
+  // embedded document), behind multi-byte text, with CRLF
+  let html = "<html><head><title>é中🦀</title>\n<style>\na { color: red; }\n</style></head>\n<body>\n<p>foo(text) é</p>\n<script>\nfoo(1);\n  bar(\"é\", foo(2));\n</script>\n<script lang=\"ts\">\nfoo(3)\n</script></body></html>\n";
+  for (j, (lang, pattern, text)) in [("JavaScript", "foo($A)", html.to_string()), ("JavaScript", "foo($A)", html.replace('\n', "\r\n")),
+                                     ("Css", "color: $C", html.to_string()), ("TypeScript", "foo($A)", html.to_string()), ("Html", "<p>$$$A</p>", html.to_string())].into_iter().enumerate() {
+    let (style, ctx) = [("stream", (0, 0, false)), ("compact", (1, 1, true)), ("pretty", (0, 2, false))][j % 3];
+    cases.push(Case { id: format!("embedded-{lang}-{j}"), files: vec![("web/p.html".to_string(), text), ("web/q.html".to_string(), "<p>none</p>\n".to_string())], lang, pattern: pattern.to_string(),
+                      rewrite: if j == 0 { Some("bar($A)".to_string()) } else { None }, ctx, style, scan: true, kind: if lang == "Css" { Some("declaration".to_string()) } else { None } });
   }
   let scratch = format!("/var/tmp/agv-c16-{}", std::process::id());
   let recs = cli::par_map(&cases, 12, |i, c| run_case(c, &scratch, i));
